@@ -109,17 +109,32 @@ def install():
         return orig_call(name, a, k)
     sympool._call = call
     init, clear = MemoryCache.__init__, MemoryCache.clear
+    fresh = set()
+
+    def setattr2(self, name, value):
+        # replacing the table (or the lock) of a cache that is already in use must happen under its lock
+        if name in ('_cache', '_lock') and id(self) not in fresh and name in self.__dict__ and not isinstance(value, Guard):
+            lock = self.__dict__.get('_lock')
+            if lock is None or not lock.locked():
+                UNLOCKED.append('replace ' + name)
+        object.__setattr__(self, name, value)
 
     def init2(self, size):
-        init(self, size)
-        self._cache = Guard(self, self._cache)
+        new = '_cache' not in self.__dict__
+        if new:
+            fresh.add(id(self))
+        try:
+            init(self, size)
+        finally:
+            fresh.discard(id(self))
+        object.__setattr__(self, '_cache', Guard(self, self._cache))
 
     def clear2(self):
         clear(self)
         with self._lock:
             if not isinstance(self._cache, Guard):
-                self._cache = Guard(self, self._cache)
-    MemoryCache.__init__, MemoryCache.clear = init2, clear2
+                object.__setattr__(self, '_cache', Guard(self, self._cache))
+    MemoryCache.__init__, MemoryCache.clear, MemoryCache.__setattr__ = init2, clear2, setattr2
 
 
 def run_schedule(spec, roots, jobs, schedule, ref_vals, clear_layer=None):
